@@ -98,7 +98,7 @@ func (hpd *httpProxyDialer) DialContext(ctx context.Context, network string, add
 	if resp.StatusCode != http.StatusOK {
 		_ = conn.Close()
 		f := strings.SplitN(resp.Status, " ", 2)
-		return nil, errors.New(f[1])
+		return nil, errors.New(f[len(f)-1])
 	}
 	return conn, nil
 }
